@@ -118,11 +118,16 @@ def fpRows (rows : List Row) (locs : List Nat) (i : Nat) : List Row :=
   | some a, some b => (rows.drop a).take (b - a)
   | _, _ => []
 
-/-- `_get_lengths`: `tuple(off - locations[i] for i, off in enumerate(locations[1:]) if not filtered or i in _partitions)` -/
-def fpLengths (locs : List Nat) (P : Option (List Nat)) : List Nat :=
-  ((List.range (locs.length - 1)).filter (fun i => match P with
-      | none => true
-      | some p => p.contains i)).map (fun i => locs.getD (i+1) 0 - locs.getD i 0)
+/-- `[offset - locations[i] for i, offset in enumerate(locations[1:])]` -/
+def allLengths (locs : List Nat) : List Nat :=
+  (List.range (locs.length - 1)).map (fun i => locs.getD (i+1) 0 - locs.getD i 0)
+
+/-- `_get_lengths` (as fixed by D62): all lengths when unfiltered, else `[lengths[i] for i in self._partitions]`
+    (`none` = IndexError) -/
+def fpLengths (locs : List Nat) (P : Option (List Nat)) : Option (List Nat) :=
+  match P with
+  | none => some (allLengths locs)
+  | some p => pick (allLengths locs) p
 
 /-- the lengths of the partitions the filtered source really has -/
 def fpTrueLengths (locs : List Nat) (P : Option (List Nat)) : List Nat :=
